@@ -49,6 +49,15 @@ def fixed_point(T, x):
 def classify(ty, x):
     if ty.k == 'range' or type(x).__name__ == 'Range':
         return 'range-helper-not-a-fixed-point'
+    if ty.k == 'tagged' and ty.x['external'] is False:
+        # convert() serialises the instance by ITS OWN class; a variant that renames its tag field writes the tag under the renamed
+        # key, which the internally tagged union (reading the Tagged(...) name) does not find
+        for m in ty.a:
+            if type(x) is py_class(m):
+                S = m.x['spec']
+                tagf = next((f for f in S.fields if f.name == ty.x['tag']), None)
+                if tagf is not None and model.out_name(S, tagf) != ty.x['tag']:
+                    return 'internal-tag-written-under-renamed-key'
     if ty.k == 'pattern' and isinstance(x, re.Pattern):
         try:
             if x.flags != re.compile(x.pattern).flags:
